@@ -344,6 +344,15 @@ def bad_values(t, rnd):
             else:
                 good = [gen_value(el, rnd) for _ in range(t["n"] + 2)]
                 out += [("short-list", good[:t["n"] - 1]), ("short-list", []), ("long-list", good)]
+        if el["k"] not in ("bits",):
+            # containers that have a length but are not sequences
+            n = t["n"] if t["lk"] == "fixed" else 3
+            if n > 0:
+                vals = [gen_value(el, rnd) for _ in range(n)]
+                out += [("dict-for-array", {i + 1: x for i, x in enumerate(vals)}),
+                        ("dict-values-for-array", {i: x for i, x in enumerate(vals)}.values())]
+                if el["k"] == "int":
+                    out += [("set-for-array", set(range(n))), ("frozenset-for-array", frozenset(range(n)))]
         if el["k"] == "int":
             lo, hi = int_range(el)
             n = max(1, t["n"]) if t["lk"] == "fixed" else 2
